@@ -415,6 +415,10 @@ fn pie_main(args: &[String]) {
     ran += 1;
     if let Err(f) = stampless_checkers() { emit(&f, "pie-case --stampless --index 4000000000".to_string(), "checkers with a zero-sized stamp that decide on the current state alone".to_string()); found += 1; }
   }
+  if only_index.is_none() || args.iter().any(|a| a == "--read-stamp") {
+    ran += 1;
+    if let Err(f) = read_stamp_is_taken_from_the_reader() { emit(&f, "pie-case --read-stamp --index 4000000000".to_string(), "a resource whose first read stores a default value".to_string()); found += 1; }
+  }
   if only_index.is_none() || args.iter().any(|a| a == "--both-roles") {
     ran += 1;
     if let Err(f) = task_and_resource_with_equal_keys() { emit(&f, "pie-case --both-roles --index 4000000000".to_string(), "one type used as a task and as a resource key with equal values".to_string()); found += 1; }
